@@ -127,3 +127,59 @@ def env_site(ea: EnvAnalysis, meth: str) -> Tuple[str, str]:
 def txt(t: T, depth: int = 6, n: int = 220) -> str:
     s = show(t, depth)
     return s if len(s) <= n else s[: n - 1] + "…"
+
+
+def norm_cond(t: T, pol: bool) -> Tuple[T, bool]:
+    """(test, polarity) with casts, bool() and leading negations removed: `not x` true == x false."""
+    while True:
+        t = strip_cast(t)
+        if t.kind == "un" and t.args[0] in ("not", "~"):
+            t, pol = t.args[1], not pol
+            continue
+        if ext_name(t) == "jax.numpy.logical_not" and t.args[1]:
+            t, pol = t.args[1][0], not pol
+            continue
+        if t.kind == "cmp" and t.args[0] in ("isnot", "notin"):
+            t, pol = mk("cmp", {"isnot": "is", "notin": "in"}[t.args[0]], t.args[1], t.args[2]), not pol
+        return t, pol
+
+
+def norm_path(path) -> List[Tuple[T, bool, object]]:
+    return [norm_cond(t, pol) + (fn,) for t, pol, fn in path]
+
+
+def raise_exits(vfg: VFG):
+    """[(function, node, normalised path, value)] of every raise (and failing assert) met while evaluating."""
+    return [(fn, node, norm_path(path), v) for kind, fn, node, path, v in vfg.exits if kind == "raise"]
+
+
+def as_proj(t: T):
+    """(base, i) for the i-th component of a tuple-valued term written either by unpacking or by constant indexing."""
+    if t.kind == "proj":
+        return t.args[0], t.args[1]
+    if t.kind == "index" and t.args[1].kind == "const" and isinstance(t.args[1].args[0], int):
+        return t.args[0], t.args[1].args[0]
+    return None
+
+
+_WRAPPER_ENV_ATTR: Dict[int, str] = {}
+
+
+def wrapper_env_attr(tree: Tree) -> str:
+    """Name of the attribute in which jumanji.wrappers.Wrapper.__init__ stores the wrapped environment (role, not
+    spelling: a consistent rename of the private attribute does not change behaviour)."""
+    if id(tree) in _WRAPPER_ENV_ATTR:
+        return _WRAPPER_ENV_ATTR[id(tree)]
+    ci = tree.classes.get("jumanji.wrappers.Wrapper")
+    init = tree.find_method(ci, "__init__") if ci is not None else None
+    if init is None:
+        raise AnalysisError("anchor jumanji.wrappers.Wrapper.__init__ not found")
+    v = VFG(tree, Model(tree))
+    self_t = mk("self", ci.qual)
+    envp = mk("param", init.qual, init.params[1])
+    v.apply_func(init, self_t, ci, [envp], {}, None, None)
+    names = [e.name for e in v.events if e.kind == "store_attr" and e.target is self_t and strip_cast(e.value) is envp]
+    if len(names) != 1:
+        raise AnalysisError(f"Wrapper.__init__ stores the wrapped environment in {names} (expected exactly one attribute)")
+    _WRAPPER_ENV_ATTR[id(tree)] = names[0]
+    return names[0]
